@@ -382,6 +382,8 @@ var c20ForbiddenPkgs = map[string]string{
 
 var c20ForbiddenFuncs = map[string]string{
 	"time.Now": "the wall clock", "time.Since": "the wall clock", "time.Until": "the wall clock",
+	// file modification times: output that depends on them depends on the history of the tree, not on its contents
+	"(*os.fileStat).ModTime": "file modification times", "(io/fs.FileInfo).ModTime": "file modification times", "os.Chtimes": "file modification times",
 	"time.Sleep": "timing", "time.After": "timing", "time.AfterFunc": "timing", "time.Tick": "timing",
 	"time.NewTimer": "timing", "time.NewTicker": "timing",
 	"os.Getpid": "the process id", "os.Getppid": "the parent process id", "os.Getuid": "the user id", "os.Geteuid": "the user id",
